@@ -24,6 +24,7 @@ package compile
 import (
 	"encoding/xml"
 	"fmt"
+	"sort"
 
 	"github.com/sdcio/yang-parser/parse"
 	"github.com/sdcio/yang-parser/schema"
@@ -232,7 +233,16 @@ func (c *Compiler) expandModule(module *parse.Module) {
 	if err := c.expandGroupings(nod, nod, schema.Current); err != nil {
 		c.error(nod, err)
 	}
-	for _, sm := range module.GetSubmodules() {
+	// In name order: expanding a nested uses fixes the status it is checked
+	// with, so the order must not be that of the map.
+	smods := module.GetSubmodules()
+	smnames := make([]string, 0, len(smods))
+	for name := range smods {
+		smnames = append(smnames, name)
+	}
+	sort.Strings(smnames)
+	for _, name := range smnames {
+		sm := smods[name]
 		if err := c.expandGroupings(nod, sm, schema.Current); err != nil {
 			c.error(sm, err)
 		}
